@@ -30,7 +30,7 @@ META = {
         'pero_ocr/core/force_alignment.py:align_text',
     ],
     'bounds': {
-        'quick': 'T x L in {1..4} x {1..2} (all pairs, incl. T < L), C = 3 symbols, symbolic blank index in [0,C), '
+        'quick': 'T x L in {1..4} x {1..2} (all pairs, incl. T < L) and T = L = 3, C = 3 symbols, symbolic blank index in [0,C), '
                  'labels symbolic in [0,C), each cost a symbolic real or +inf (inf pattern symbolic)',
         'thorough': 'T x L in {1..5} x {1..3} (T=5,L=3 only for align, not align_text), C = 3; plus C = 4 for T <= 3, L <= 2',
     },
@@ -50,6 +50,8 @@ def tasks(tier):
             ts.append({'fn': 'align', 'T': T, 'L': L, 'C': 3})
         for T, L in itertools.product(range(1, 4), range(1, 3)):
             ts.append({'fn': 'text', 'T': T, 'L': L, 'C': 3})
+        # three labels on exactly three frames: the shortest input with a non-adjacent recurring label (a, b, a) and no spare frame
+        ts.append({'fn': 'align', 'T': 3, 'L': 3, 'C': 3})
     else:
         for T, L in itertools.product(range(1, 6), range(1, 4)):
             if T == 5 and L == 3:
